@@ -457,6 +457,7 @@ class DictSerializer:
                 "kind": "base",
                 "name": typ.name,
                 "size": typ.size,
+                "encoding": typ.encoding,
             }
         elif isinstance(typ, DebugStructType):
             fields = []
@@ -611,7 +612,7 @@ class DictDeserializer:
         if kind == "base":
             name = t["name"]
             size = t["size"]
-            dt = DebugBaseType(name, size, 1)
+            dt = DebugBaseType(name, size, t.get("encoding", 1))
             self.types[idx] = dt
         elif kind == "struct":
             dt = DebugStructType()
